@@ -60,6 +60,7 @@ type wscript struct {
 	term    int
 	code    codes.Code
 	emsg    string
+	ekind   int  // how the handler builds the error it returns: 0 status error, 1 status error wrapped with %w, 2 plain Go error
 	mutate  bool // the sender scribbles over a message right after sending it
 	mdReuse bool // the handler keeps changing the metadata map it handed to SetHeader / SendHeader / SetTrailer
 	preDone bool // cancel/deadline terminals: the context is already cancelled / past its deadline when the call is made
@@ -84,7 +85,7 @@ func (s wscript) String() string {
 			p = append(p, "halfclose")
 		}
 	}
-	term := []string{"return-ok", fmt.Sprintf("return(%s,%q)", s.code, s.emsg), "client-cancel", "deadline"}[s.term]
+	term := []string{"return-ok", fmt.Sprintf("return(%s,%q,%s)", s.code, s.emsg, []string{"status", "wrapped-status", "plain-error"}[s.ekind]), "client-cancel", "deadline"}[s.term]
 	return fmt.Sprintf("%s [%s] %s mutate=%v late-handler=%v md-reuse=%v pre-done=%v", []string{"unary", "sstream", "cstream", "bidi"}[s.shape], strings.Join(p, " "), term, s.mutate, s.late, s.mdReuse, s.preDone)
 }
 
@@ -92,6 +93,7 @@ func genWrapScript(t *Tape) wscript {
 	s := wscript{shape: t.Choose(4), term: t.Choose(4), mutate: t.Flag(1, 3), late: t.Flag(1, 3), mdReuse: t.Flag(1, 3)}
 	s.code = []codes.Code{codes.NotFound, codes.InvalidArgument, codes.Internal, codes.Unavailable, codes.PermissionDenied, codes.Aborted}[t.Choose(6)]
 	s.emsg = []string{"boom", "", "not here"}[t.Choose(3)]
+	s.ekind = []int{0, 0, 1, 2}[t.Choose(4)]
 	n := t.Choose(6)
 	headerSent := false
 	halfClosed := false
@@ -195,10 +197,9 @@ func errClass(err error) string {
 	case status.Code(err) == codes.DeadlineExceeded || errors.Is(err, context.DeadlineExceeded):
 		return "deadline"
 	}
-	if st, ok := status.FromError(err); ok {
-		return fmt.Sprintf("status(%s,%q)", st.Code(), st.Message())
-	}
-	return "error(" + err.Error() + ")"
+	// what the caller can tell with status.Code / status.Convert (an error without a status counts as Unknown with its text)
+	st := status.Convert(err)
+	return fmt.Sprintf("status(%s,%q)", st.Code(), st.Message())
 }
 
 // ---- the scripted server ------------------------------------------------------------------------------------------------
@@ -270,6 +271,13 @@ func (sv *scriptServer) run(st srvStream, ctx context.Context, recv func() (stri
 	sv.yield("srv-term")
 	switch sv.s.term {
 	case tReturnErr:
+		switch sv.s.ekind {
+		case 1:
+			// gRPC looks through %w wrapping for the status (code kept, message = the whole text)
+			return fmt.Errorf("while handling: %w", status.Error(sv.s.code, sv.s.emsg))
+		case 2:
+			return errors.New("plain:" + sv.s.emsg) // no status at all: Unknown with the error text
+		}
 		return status.Error(sv.s.code, sv.s.emsg)
 	case tCancel, tDeadline:
 		if sv.s.shape == 0 && sv.s.term == tCancel && !sv.s.preDone {
@@ -613,6 +621,9 @@ func wrapRun(w *World) {
 		return
 	}
 	s := pre.script
+	if s.preDone {
+		w.MarkRuntimeChoice() // every select on both sides has the done context ready next to whatever else is ready
+	}
 	w.Mix(s.String())
 	w.MarkNontrivial()
 	same := func(a, b transcript) bool {
